@@ -1,9 +1,11 @@
 (* C14 — Untrusted keyset input is rejected or yields a well-formed handle,
    never a panic.  Statements only; proofs in proofs/UntrustedProofs.v, the
    property's vocabulary (wf_keyset, wf_handle, strength_ok) in
-   model/UntrustedSpec.v.  The elliptic-curve checks of crypto/ecdh are
-   arbitrary functions (ec_point_ok, ec_pub_of_priv): every theorem holds for
-   all of them, no law is needed. *)
+   model/UntrustedSpec.v.  What the parsers ask of the Go standard library
+   (crypto/ecdh point and scalar checks, Ed25519 / ML-KEM public key of a
+   seed, SHAKE256, crypto/rsa Validate / Precompute / sign-and-verify) is a
+   record of arbitrary functions (stdlib): every theorem holds for all of
+   them, no law is needed. *)
 From Coq Require Import String Ascii List NArith Bool.
 From Tink Require Import Bytes UntrustedConsts Untrusted UntrustedSpec UntrustedProofs.
 Import ListNotations.
@@ -131,12 +133,67 @@ Print Assumptions C14_parser_and_constructor_never_panic.
    primitive constructor accepts) meets the property's minimum strengths:
    HMAC key >= 16 and tag >= 10, AES keys of 16 or 32 bytes, HKDF-PRF key >=
    32, ECDSA hash at least as strong as the curve, RSA modulus >= 2048 and
-   e = 65537 (the exponent as a number, of any encoded length). *)
+   e = 65537 (the exponent as a number, of any encoded length) - for RSA
+   public keys, RSA private keys (the public part they embed) and the JWT
+   forms of both; JWT-HMAC keys >= 16 bytes; streaming AEAD keys derive AES
+   keys of 16 or 32 bytes (and HMAC tags >= 10). *)
 Theorem C14_usable_implies_strength :
   forall (L : stdlib) kd prefix idreq,
     usable L kd prefix idreq = true -> strength_ok kd.
 Proof. exact usable_strength. Qed.
 Print Assumptions C14_usable_implies_strength.
+
+(* Mismatched public / private parts are rejected: whenever the parser of a
+   private key type accepts, the public part of the message is exactly what
+   the standard library derives from the private part - Ed25519 (public key
+   of the 32-byte seed), RSA-SSA-PKCS1 / PSS and their JWT forms (the key
+   passes crypto/rsa's Validate and dp, dq, crt are the precomputed values;
+   the plain keys also have e = 65537 and pass a sign/verify self check),
+   ECIES and JWT-ECDSA (crypto/ecdh public key of the scalar, a valid point),
+   HPKE (crypto/ecdh, X-Wing = SHAKE256 + ML-KEM-768 + X25519, ML-KEM) and
+   SLH-DSA (the second half of the private key). *)
+Theorem C14_mismatched_parts_rejected :
+  forall (L : stdlib) kd prefix idreq d,
+    let fs := fields_or_nil (kd_value kd) in
+    (parse_ed25519_priv L kd prefix idreq = Ok d ->
+       blen (get_len 2 fs) = 32 /\ get_len 2 (get_sub 3 fs) = ed25519_pub L (get_len 2 fs))
+    /\ (forall pss, parse_rsa_priv L pss kd prefix idreq = Ok d ->
+         rsa_crt_consistent L (get_len 3 (get_sub 2 fs)) 65537 fs
+         /\ be_val (get_len 4 (get_sub 2 fs)) = 65537)
+    /\ (forall pss, parse_jwt_rsa_priv L pss kd prefix idreq = Ok d ->
+         rsa_crt_consistent L (get_len 3 (get_sub 2 fs)) (exponent_value (rsa_exponent (get_len 4 (get_sub 2 fs)))) fs)
+    /\ (parse_ecies_priv L kd prefix idreq = Ok d ->
+         exists curve dem pt sk, d = PEcies true curve dem pt /\ ec_pub_of_priv L curve sk = Some pt
+           /\ ec_point_ok L curve pt = true)
+    /\ (parse_jwt_ecdsa_priv L kd prefix idreq = Ok d ->
+         exists alg pt sk, d = PJwtEcdsa true alg pt /\ ec_pub_of_priv L (jwt_curve alg) sk = Some pt)
+    /\ (parse_hpke_priv L kd prefix idreq = Ok d ->
+         let kem := get_u32 1 (get_sub 2 (get_sub 2 fs)) in
+         let pk := get_len 3 (get_sub 2 fs) in
+         let sk := get_len 3 fs in
+         match hpke_ecdh_curve kem with
+         | Some c => ec_pub_of_priv L c sk = Some pk /\ ec_point_ok L c pk = true
+         | None => if kem =? kem_xwing then xwing_pub L sk = Some pk
+                   else if kem =? kem_mlkem768 then mlkem_pub L 768 sk = Some pk
+                   else mlkem_pub L 1024 sk = Some pk
+         end)
+    /\ (parse_slhdsa_priv kd prefix idreq = Ok d ->
+         exists ks, blen (get_len 2 fs) = ks /\ (ks = 64 \/ ks = 96 \/ ks = 128)
+           /\ get_len 2 (get_sub 3 fs) = skipn (N.to_nat (ks / 2)) (get_len 2 fs)).
+Proof.
+  intros L kd prefix idreq d fs.
+  split. { intros H. destruct (ed25519_priv_consistent L _ _ _ _ H) as [A [B _]]. split; [exact A|exact B]. }
+  split. { intros pss H. destruct (rsa_priv_consistent L _ _ _ _ _ H) as [A [B _]]. cbv zeta in A, B.
+           fold fs in A, B. unfold rsa_exponent_prim in B. rewrite B in A. split; [exact A|].
+           unfold exponent_value, rsa_exponent in B.
+           destruct (be_val (get_len 4 (get_sub 2 fs)) <? 9223372036854775808); [exact B|discriminate]. }
+  split. { intros pss H. exact (jwt_rsa_priv_consistent L _ _ _ _ _ H). }
+  split. { exact (ecies_priv_consistent L _ _ _ _). }
+  split. { exact (jwt_ecdsa_priv_consistent L _ _ _ _). }
+  split. { exact (hpke_priv_consistent L _ _ _ _). }
+  exact (slhdsa_priv_consistent _ _ _ _).
+Qed.
+Print Assumptions C14_mismatched_parts_rejected.
 
 (* Regression for the defect fixed in /repo (commit 067e856): the RSA public
    key with exponent field 2^64 + 65537, which int(exponent.Int64()) used to
@@ -169,6 +226,39 @@ Definition ex_keyset : bytes :=
   [8; 5]
   ++ [18; 80; 10; 72; 10; 48] ++ u_aes_gcm ++ [18; 18] ++ ex_aes_value ++ [24; 1] ++ [16; 1; 24; 5; 32; 1]
   ++ [18; 13; 10; 5; 10; 1; 120; 24; 3; 16; 2; 24; 9; 32; 3].
+
+(* ... and for the key types of the second round, with a toy standard library
+   whose Ed25519 "public key" of a seed is the seed itself: an Ed25519 private
+   key whose public part is its seed is accepted and gives a signer, another
+   public part is refused; a streaming AEAD key deriving 16-byte AES keys is
+   usable and strong, one deriving 24-byte keys is refused by the parser; a
+   JWT-HMAC HS256 key of 32 bytes with prefix TINK is usable, of 31 bytes not. *)
+Definition std1 : stdlib :=
+  mkStd (fun _ _ => false) (fun _ _ => None) (fun seed => seed) (fun _ _ => None) (fun _ _ => [])
+        (fun _ _ _ _ _ => None) (fun _ _ _ _ _ _ _ _ => false).
+Definition ex_seed : bytes := repeat 9 32%nat.
+Definition ex_ed_priv (pub : bytes) : keydata :=
+  mkKD u_ed25519_priv ([18; 32] ++ ex_seed ++ [26; 34; 18; 32] ++ pub) km_private.
+Definition ex_stream (derived : N) : keydata :=
+  mkKD u_stream_gcm_hkdf ([18; 7; 8; 128; 32; 16; derived; 24; 3; 26; 32] ++ repeat 5 32%nat) km_symmetric.
+Definition ex_jwt_hmac (n : nat) : keydata :=
+  mkKD u_jwt_hmac ([16; 1; 26; N.of_nat n] ++ repeat 5 n) km_symmetric.
+
+Example C14_nonvacuous_second_round :
+  parse_key std1 (ex_ed_priv ex_seed) pt_tink 5 = Ok (PEd25519Priv ex_seed)
+  /\ usable std1 (ex_ed_priv ex_seed) pt_tink 5 = true
+  /\ parse_key std1 (ex_ed_priv (repeat 8 32%nat)) pt_tink 5 = Err
+  /\ usable std1 (ex_stream 16) pt_raw 0 = true /\ strength_ok (ex_stream 16)
+  /\ parse_key std1 (ex_stream 24) pt_raw 0 = Err
+  /\ usable std1 (ex_jwt_hmac 32) pt_tink 7 = true
+  /\ parse_key std1 (ex_jwt_hmac 31) pt_tink 7 = Err
+  /\ parse_key std1 (ex_jwt_hmac 32) pt_legacy 7 = Err.
+Proof.
+  split; [vm_compute; reflexivity|]. split; [vm_compute; reflexivity|]. split; [vm_compute; reflexivity|].
+  split; [vm_compute; reflexivity|].
+  split; [apply (usable_strength std1 _ pt_raw 0); vm_compute; reflexivity|].
+  repeat split; vm_compute; reflexivity.
+Qed.
 
 Example C14_nonvacuous :
   (exists h, read std0 ex_keyset = Ok h
